@@ -1101,11 +1101,28 @@ func c09DecrementCloses(c *Ctx) {
 				n++
 				// the decrement is the condition of this block and its "reached zero" edge closes
 				good := false
-				if cond, tr, _, ok := g.Cond(b); ok && nd == ast.Node(cond) {
-					for _, at := range core.Atoms(cond, true) {
-						if be, ok := at.Cond.(*ast.BinaryExpr); ok && be.Op == token.EQL && core.ExprStr(be.Y) == "0" && at.Polarity {
-							if len(g.ExitsAvoiding(core.Point{B: tr, I: 0}, closeNow)) == 0 {
-								good = true
+				if cond, tr, fl, ok := g.Cond(b); ok && nd == ast.Node(cond) {
+					// the edge on which the count reached zero (either branch, after normalisation), then every path
+					// closes — except the ones leaving on a "not retired" edge, where there is nothing to close
+					notRetired := func(from *cfg.Block, si int) bool {
+						c2, _, _, ok := g.Cond(from)
+						if !ok {
+							return true
+						}
+						for _, at := range core.Atoms(c2, si == 0) {
+							if !at.Polarity && strings.HasSuffix(nospace(core.ExprStr(at.Cond)), ".retired.Load()") {
+								return false
+							}
+						}
+						return true
+					}
+					for pi, succ := range []*cfg.Block{tr, fl} {
+						for _, at := range core.Atoms(cond, pi == 0) {
+							if be, ok := at.Cond.(*ast.BinaryExpr); ok && be.Op == token.EQL && core.ExprStr(be.Y) == "0" && at.Polarity && strings.Contains(core.ExprStr(be.X), ".Add(") {
+								// the same condition may carry the retired test (a && b): its false edge is the other successor and is not explored
+								if len(g.ExitsAvoidingE(core.Point{B: succ, I: 0}, closeNow, notRetired)) == 0 {
+									good = true
+								}
 							}
 						}
 					}
